@@ -35,6 +35,17 @@ add(
     "DESIGN.md 6/C07",
 )
 
+add(
+    "C18",
+    "exploration",
+    "Generated scripts of Reporter calls, noise and must-be-rejected reports, emitted through the real Reporter, written to a "
+    "file and parsed by the real retrieve(); oracle: parsed list == accepted reports (structural, NaN-aware, bit-exact floats). "
+    "~8e4 scripts quick, ~1.9e6 thorough.",
+    "Clock of syne_tune.report replaced by a harness clock; noise never contains the tag; JSON-native value trees plus numpy scalars.",
+    "property-based testing (Hypothesis choice tape): emit/parse round-trip oracle with hostile strings and interleaved noise",
+    "DESIGN.md 6/C18",
+)
+
 NOT_YET = {}
 
 ALL = [f"C{i:02d}" for i in range(1, 21)]
